@@ -90,9 +90,15 @@ def shard(shard_no, nshards, seed, tier, extra):
             if rng.random() < 0.02:
                 ln = 24576
             code, feats = bytes(rng.getrandbits(8) for _ in range(ln)), {"random-bytes"}
-        elif r < 0.62:
+        elif r < 0.54:
             code, f = progs.sinks(rng, B + [len(B)])
             feats = {"sinks"} | f
+        elif r < 0.58:
+            code, f = progs.every_producer(rng)
+            feats = {"every-producer"}
+        elif r < 0.62:
+            code, f = progs.typed_widths(rng)
+            feats = {"typed-widths"}
         elif r < 0.7:
             code, feats = progs.mask_shift(rng)
             feats = {"mask-shift"} | feats
